@@ -251,7 +251,8 @@ def gen_errors(seed, tier):
     n = 300 if tier == "quick" else 6000
     out = []
     for i in range(n):
-        b = GridBuilder(rng)
+        # (every third history has two tables: rows, and their errors, may then be in both)
+        b = GridBuilder(rng, ntables=2 if i % 3 == 1 else 1)
         necs = 0
         eid = 0
         ncols = 0
@@ -262,17 +263,17 @@ def gen_errors(seed, tier):
                 before = len(b.ops)
                 b.step(maxcells=3, items=lambda: S(rng.choice(["a", "bb", ""])),
                        weights={"headers": 1, "rowitems": 4, "sep": 1, "appendrow": 1, "newrow": 1, "rowadd": 3, "addrow": 2,
-                                "readd": 1 if i % 4 == 0 else 0})
+                                "readd": (3 if b.ntables > 1 else 1) if i % 4 == 0 or b.ntables > 1 else 0})
                 op = b.ops[-1]
-                if op["op"] in ("headers", "rowitems"):
+                if op["op"] in ("headers", "rowitems") and op["t"] == 1:
                     ncols = max(ncols, len(op["items"]))
-                ncols = max([ncols] + [x["n"] for x in b.rows if x["tbl"]])
+                ncols = max([ncols] + [x["n"] for x in b.rows if x["tbl"] == 1])
             elif r < 0.5 and b.rows:
                 cands = [j + 1 for j, x in enumerate(b.rows) if not x["sep"]]
                 if cands:
                     b.ops.append({"op": "rowerr", "r": rng.choice(cands), "e": "nil" if rng.random() < 0.15 else "E%d" % eid})
             elif r < 0.55:
-                b.ops.append({"op": "tblerr", "t": 1, "e": "nil" if rng.random() < 0.15 else "E%d" % eid})
+                b.ops.append({"op": "tblerr", "t": rng.randint(1, b.ntables), "e": "nil" if rng.random() < 0.15 else "E%d" % eid})
             elif r < 0.7:
                 # a failing callback somewhere sensible
                 choices = [({"kind": "table", "t": 1}, tm, tg) for tm, tg in
@@ -402,6 +403,33 @@ def gen_callbacks(seed, tier):
             b.ops.append({"op": "rendercbs", "t": 1})
             ncb = k + 2
             ncols = 2
+        if i % 10 == 3:
+            # a row that is in two tables: each table's render pass runs that table's callbacks (its own column and
+            # table-level ones) on the row's cells, whichever table the row joined last; cells added late included
+            b = GridBuilder(rng, ntables=2)
+            k = rng.randint(1, 2)
+            b.ops.append({"op": "newrow", "how": "new", "t": 1, "cap": 0})
+            b.rows.append({"sep": False, "n": k, "tbl": 1})
+            for _ in range(k):
+                b.ops.append({"op": "rowadd", "r": 1, "item": S("a")})
+            order = rng.choice([[1, 2], [2, 1], [1, 2, 1]])
+            for t in order:
+                b.ops.append({"op": "addrow", "t": t, "r": 1})
+            if rng.random() < 0.5:
+                b.ops.append({"op": "rowadd", "r": 1, "item": S("late")})
+                k += 1
+            regs = []
+            for t in (1, 2):
+                regs += [({"kind": "table", "t": t}, tm, "cell", t) for tm in ("pre", "render", "post")]
+                for c in range(1, k + 1):
+                    regs += [({"kind": "column", "t": t, "n": c}, tm, "cell", t) for tm in ("pre", "post")]
+            regs += [({"kind": "row", "r": 1}, "pre", "cell", 1), ({"kind": "cell", "r": 1, "c": 1}, "render", "itself", 1)]
+            for o, tm, tg, t in rng.sample(regs, rng.randint(2, 6)):
+                b.ops.append({"op": "regcb", "t": t, "owner": o, "time": tm, "target": tg, "fails": rng.choice([0, 0, 1])})
+            for t in rng.sample([1, 2], 2):
+                b.ops.append({"op": "rendercbs", "t": t})
+            out.append(b.ops)
+            continue
         if i % 10 == 5:
             # one registration for every slot of the documented nesting order, on a small table with a header and a
             # separator, then two render passes: the whole order is observable in one log
@@ -624,6 +652,27 @@ def gen_text(seed, tier, sized=0.0, aligns=0.3):
             if more:
                 b.ops += more
                 b.ops.append({"op": "render", "w": 1, "entry": "Render"})
+            # the renderer's public helpers (beyond the listed properties): the measured lines of one row
+            rows = [k + 1 for k, r in enumerate(b.rows) if r["tbl"] == 1]
+            if rows and rng.random() < 0.5:
+                b.ops.append({"op": "rendercbs", "t": 1})
+                b.ops.append({"op": "rowlines", "w": 1, "r": rng.choice(rows)})
+        if rng.random() < 0.5:
+            # the emitter object by itself: rule lines and one content line for given widths
+            n = rng.randint(0, 4)
+            d = rnd_decor_op(rng, 1)
+            cells = []
+            for _ in range(n):
+                t = rng.choice(TEXTS + ["", "ab", "日本"]).split("\n")[0]
+                cells.append([t, rng.choice([len(t), len(t), 0, 1, 3, -1])])
+            eop = {"op": "emitter", "widths": [rng.randint(0, 7) for _ in range(n)], "cells": cells,
+                   "aligns": [rng.choice(["left", "right", "centre"]) for _ in range(n)]}
+            eop.update({k: v for k, v in d.items() if k in ("name", "custom")})
+            b.ops.append(eop)
+        if rng.random() < 0.5:
+            txt = rng.choice(TEXTS + ["", "ab", "日本"]).split("\n")[0]
+            b.ops.append({"op": "within", "s": txt, "w": rng.choice([-1, 0, 1, 2, 5, len(txt)]), "avail": rng.randint(0, 9),
+                          "align": rng.choice(["none", "left", "right", "centre"])})
         out.append(b.ops)
     return out
 
@@ -894,6 +943,11 @@ def gen_paths(seed, tier):
             # change what is rendered (the reference path has no such callback)
             b.ops.append({"op": "regcb", "t": 1, "owner": {"kind": "table", "t": 1}, "time": rng.choice(["render", "pre", "post"]),
                           "target": "cell", "fails": 1 if rng.random() < 0.7 else 0})
+        if rng.random() < 0.3:
+            # the table in hand (a wrapper, when a sub-package created it) accepts every registration the core table
+            # accepts: each supported (time, target) of a table owner
+            tm, tg = rng.choice([("add", "row"), ("add", "cell"), ("pre", "itself"), ("post", "itself"), ("pre", "cell"), ("post", "cell")])
+            b.ops.append({"op": "regcb", "t": 1, "owner": {"kind": "table", "t": 1}, "time": tm, "target": tg, "fails": 0})
         for _ in range(rng.randint(0, 3)):
             over = {"w": rng.randint(1, nwr)} if nwr and rng.random() < 0.7 else {"t": 1}
             if rng.random() < 0.2:
@@ -951,6 +1005,14 @@ def gen_repeat(seed, tier):
                     text_wr.append(nwr)
             elif r < 0.5 and text_wr:
                 b.ops.append(rnd_decor_op(rng, rng.choice(text_wr)))
+            elif r < 0.58 and text_wr:
+                # a render that is refused (unknown decoration name, or no decoration at all) is a render too:
+                # it must leave the table, its error list included, as it was
+                w = rng.choice(text_wr)
+                b.ops.append({"op": "decor", "w": w, "name": "no-such-decoration"} if rng.random() < 0.6 else {"op": "decor", "w": w, "custom": {}})
+                b.ops.append({"op": "render", "w": w, "entry": rng.choice(["Render", "RenderTo"])})
+            elif r < 0.62:
+                b.ops.append({"op": "render", "auto": rng.choice(["bogus", "texttable.bogus"]), "t": 1, "entry": rng.choice(["Render", "RenderTo"])})
             render_ops(rng, b, nwr, 1)
         out.append(b.ops)
     return out
